@@ -36,7 +36,9 @@ def parseUint (bs : Bytes) (max : Nat) : Option Nat :=
   | some v => if v ≤ max then some v else none
   | none => none
 
-def ofString (s : String) : Bytes := s.toUTF8.toList.map (·.toNat)
+/-- bytes of an ASCII string literal (code points = bytes for ASCII; only used on ASCII
+literals). Defined through `String.toList` so that the kernel can evaluate it. -/
+def ofString (s : String) : Bytes := s.toList.map Char.toNat
 
 /-! ### lemmas -/
 
